@@ -235,8 +235,8 @@ func c14DirectedCfg(env *Env, name, tag string, spec orcSpec, nb, restartAfter i
 	gen := func(d *orcDriver) c14Block {
 		h := uint64(d.c.Header.Height)
 		open := map[int]uint64{}
-		for fi := range spec.Feeders {
-			if b := spec.openBase(fi, h); b > 0 {
+		for fi := range d.spec.Feeders { // d.spec = spec, plus what accepted parameter updates configured since
+			if b := d.spec.openBase(fi, h); b > 0 {
 				open[fi] = b
 			}
 		}
@@ -430,6 +430,9 @@ func domOracleC14(env *Env) error {
 				}
 				return ""
 			})
+	}
+	if env.Int("accparams", 0) == 1 {
+		c14AcceptedParams(env, base)
 	}
 	if env.Int("f14d", 0) == 1 {
 		// F-14d: a chain younger than MaxNonce. `block - uint64(common.MaxNonce)` in cacheMsgs.commit wraps
